@@ -2,7 +2,7 @@
    Statements only; proofs in Proofs/LedgerP.v.  Each theorem is about ONE deploy from an
    arbitrary world (so it applies at every deploy step of every history, with any filter/profile:
    [roots]/[D] are the render result for the selected targets); hypotheses wfD/wfM as in C05. *)
-From AP Require Import Base.Str Gen.Tables Model.Deploy Proofs.DeployP Proofs.ConvergeP Proofs.LedgerP.
+From AP Require Import Base.Str Gen.Tables Model.Deploy Proofs.DeployP Proofs.ConvergeP Proofs.LedgerP Proofs.RollbackP Proofs.HistoryP.
 Open Scope N_scope.
 
 (* every desired file — written by this deploy or found byte-identical — is listed by the manifest
@@ -38,6 +38,21 @@ Theorem C15_listed_is_desired : forall w roots D flt i r tp,
   exists d, In d D /\ dkey d = tp /\ files w' (dpath d) = Some (FBytes (dcontent d)).
 Proof. intros w roots D flt i r tp HD HM. exact (listed_is_desired w roots D flt HD HM i r tp). Qed.
 Print Assumptions C15_listed_is_desired.
+
+(* continuity over HISTORIES of plain deploys (no filter, no adopt, new outputs created) and user
+   drift on managed files, from any applied deploy after which every root has a manifest: the
+   managed set is at every point exactly the key set of the last applied desired state, which is
+   well-formed, and every root keeps its manifest — so each file agentpack wrote and has not deleted
+   stays recorded, and nothing else is *)
+Theorem C15_history_continuity : forall st confirmed adopt w0 roots DS pl wS h,
+  deploy_cmd st confirmed adopt None w0 roots DS = (pl, (OApplied, wS)) ->
+  wfD roots DS -> wfM DS (managed_for_plan w0 roots None) -> covered roots DS ->
+  all_manifests roots (files wS) -> hist_ok roots wS h ->
+  exists Dh, wfD roots Dh /\
+             (forall tp, In tp (managed_for_plan (run_hist roots wS h) roots None) <-> mem_key tp Dh = true) /\
+             all_manifests roots (files (run_hist roots wS h)).
+Proof. exact history_managed_exact. Qed.
+Print Assumptions C15_history_continuity.
 
 (* the full invariant (over deploy AND bootstrap) is refuted by the faithful model: bootstrap shares
    the codex skills root with deploy and rewrites the manifest from its own desired state only *)
